@@ -11,6 +11,7 @@
       main     DoitMain.run -> DoitCmdBase.execute  (INI file or API config, DOIT_CONFIG -> update_defaults, exit code)
       task     Task(params).init_options            (per-task config section values)
       creator  @task_params creator via loader.load_tasks (section task:<name>)
+      realcmd  the CmdParse each real doit command builds from its own option table
 (P) the statement, evaluated by the Lean driver from the *structured* input (list of assignments, the four sources;
     no parsing involved: `specOf`), compared with what the implementation returned; malformed inputs must be rejected
     with CmdParseError (exit code 3); second parse == first parse and the option objects keep their defaults.
@@ -70,7 +71,9 @@ META = {
             'rendering forms (+ `--`, positionals) or malformed injections (9 kinds) or garbage token streams x env x '
             'config sections (raw strings and typed values; API dict, INI file, pyproject.toml) x DOIT_CONFIG, on 5 '
             'code paths; 35% of the cases with an earlier, different command line handled first by the same parser / '
-            'command object / process; + all argv up to length 2 (quick) / 3 (thorough) over 16 tokens; non-trivial = at least one '
+            'command object / process; + all argv up to length 2 (quick) / 3 (thorough) over 16 tokens; + the option '
+            'table of every real doit command: each option addressed once through each of its names (the option meant '
+            'must get the value, no other may change) and random assignment lists; non-trivial = at least one '
             'option is decided by a non-default source or the input is rejected; distinct = distinct canonical case',
     'assumptions': ['text values are ASCII where python would apply unicode rules (int(), lower(), strip())',
                     'option tables satisfy WF for the monitor (ill-formed tables are only compared with the model)',
@@ -173,7 +176,7 @@ def gen_case(rng, base, path=None):
 def model_request(case):
     req = {'model': 'opt', 'spec': case['spec'], 'env': case['env'], 'ini': case['ini'], 'glob': case['glob'],
            'dodo': case['dodo'], 'argv': case['argv']}
-    req['op'] = 'parse' if case['path'] == 'parse' else 'pipeline'
+    req['op'] = 'parse' if case['path'] in ('parse', 'realcmd') else 'pipeline'
     return req
 
 
@@ -193,6 +196,8 @@ def run_impl(case, workdir):
         return optlib.impl_main(case, workdir)
     if p == 'task':
         return optlib.impl_task(case)
+    if p == 'realcmd':
+        return impl_realcmd(case)
     return optlib.impl_creator(case)
 
 
@@ -257,7 +262,7 @@ def judge(case, impl, model, spec):
     if not same_result(r1, model['res'], case):
         div.append('M4/%s: result differs: impl %s model %s' % (path, canon(res_key(r1))[:300],
                                                                canon(res_key(model['res']))[:300]))
-    if path == 'parse' and not impl.get('ctor'):
+    if path in ('parse', 'realcmd') and not impl.get('ctor'):
         if not same_result(impl.get('res2'), model['res2'], case):
             div.append('M4/parse: second parse differs: impl %s model %s'
                        % (canon(res_key(impl.get('res2')))[:300], canon(res_key(model['res2']))[:300]))
@@ -268,12 +273,30 @@ def judge(case, impl, model, spec):
     if 'res2' in impl and res_key(impl['res2']) != res_key(r1):
         viol.append(('pure', 'second parse of the same input with the same parser object differs: %s then %s'
                      % (canon(res_key(r1))[:300], canon(res_key(impl['res2']))[:300])))
-    if path == 'parse' and 'defaults0' in impl and not (impl['defaults0'] == impl['defaults'] == impl['defaults2']):
+    if path in ('parse', 'realcmd') and 'defaults0' in impl and not (impl['defaults0'] == impl['defaults'] == impl['defaults2']):
         viol.append(('pure', 'parse changed option defaults: %s -> %s -> %s'
                      % (impl['defaults0'], impl['defaults'], impl['defaults2'])))
     if path == 'task' and impl.get('again_is_none') is False:
         viol.append(('pure', 'Task.init_options parsed a second time'))
     wf = model.get('wf')
+    # ---- (P) a real command's option, addressed by one of its names, gets the value (and no other option changes)
+    if case.get('target') is not None:
+        if 'ok' not in (r1 or {}):
+            viol.append(('roundtrip', '%s: option %r given as %s was rejected: %s'
+                         % (case['cmd'], case['target'], case['argv'], canon(r1)[:200])))
+        else:
+            got = dict((n, v) for n, v in r1['ok']['vals'])
+            dflt = dict((o['name'], o['default']) for o in case['spec'])
+            if got.get(case['target']) != case['expected']:
+                viol.append(('roundtrip', '`doit %s %s`: option %r is %s, written %s'
+                             % (case['cmd'].lower(), ' '.join(case['argv']), case['target'],
+                                canon(got.get(case['target'])), canon(case['expected']))))
+            else:
+                for n, v in got.items():
+                    if n != case['target'] and v != dflt.get(n):
+                        viol.append(('roundtrip', '`doit %s %s` changed option %r to %s'
+                                     % (case['cmd'].lower(), ' '.join(case['argv']), n, canon(v))))
+                        break
     # ---- (P) rejection of malformed input
     if r1 is not None and r1.get('escaped'):
         viol.append(('reject', 'the parse error (%s) escaped DoitMain.run as an exception (traceback, exit status 1) '
@@ -330,8 +353,8 @@ def _fails(case, label):
 def shrink(case, label, cap=120):
     cur = json.loads(json.dumps(case))
     budget = [cap]
-    if cur.get('malformed'):
-        return cur          # the injected element is what makes the case malformed: keep the case as generated
+    if cur.get('malformed') or cur.get('target') is not None:
+        return cur          # the injected element / the single targeted assignment is the case: keep it as generated
 
     def attempt(cand):
         if budget[0] <= 0:
@@ -456,12 +479,14 @@ def witness_of(case, impl, model, spec, label, note):
 # ------------------------------------------------------------------------------------------------ workers
 
 def account(st, case, impl, model, spec):
-    st.case({'path': case['path'], 'spec': [[o['name'], o['type'], o['short'], o['long'], o['inverse']] for o in case['spec'][case['n_base']:]],
+    st.case({'path': case['path'], 'cmd': case.get('cmd'), 'spec': [[o['name'], o['type'], o['short'], o['long'], o['inverse']] for o in case['spec'][case['n_base']:]],
              'argv': case['argv'], 'env': case['env'], 'ini': case['ini'], 'dodo': case['dodo'],
              'prev': case.get('prev_argv')},
             nontrivial(case, impl))
     st.traces += 1
     st.count('path:' + case['path'] + (('/config-' + case['ini_mode']) if case['path'] == 'main' else ''))
+    if case['path'] == 'realcmd':
+        st.count('realcmd:' + case['cmd'] + ('/targeted' if case.get('target') is not None else '/random'))
     st.count('options:%d' % (len(case['spec']) - case['n_base']))
     st.count('kind:' + ('malformed' if case.get('malformed') else 'abbrev' if case.get('abbrev') else
                         'structured' if case['asgs'] is not None else 'garbage'))
@@ -592,6 +617,9 @@ def run(ctx):
         while path is None or (path == 'main' and base is None):
             path = rng.choice(PATHS)
         cases.append(gen_case(rng, base or [], path))
+    real = realcmd_cases(random.Random(master.getrandbits(64)), 4 if ctx.tier == 'quick' else 60)
+    ctx.count('real-command-tables:cases', len(real))
+    cases += real
     small = small_scope_cases(3 if (ctx.tier == 'thorough' or ctx.boost > 1) else 2)
     ctx.extra['exhaustive_small_scope'] = {'tokens': len(SMALL_TOKENS), 'envs': len(SMALL_ENVS),
                                            'max_len': 3 if (ctx.tier == 'thorough' or ctx.boost > 1) else 2,
@@ -706,6 +734,82 @@ def real_tables():
         out.append(('DodoTaskLoader', optlib.spec_of_cmdoptions([CmdOption(o) for o in DodoTaskLoader.cmd_options]), ''))
     except Exception as ex:  # noqa
         out.append(('DodoTaskLoader', None, type(ex).__name__))
+    return out
+
+
+def _real_parser(label):
+    """the CmdParse a real command builds for itself (fresh objects)"""
+    import importlib
+    from doit.cmd_base import DodoTaskLoader
+    from doit.cmdparse import CmdOption, CmdParse
+    from doit.plugin import PluginDict
+    if label == 'DodoTaskLoader':
+        return CmdParse([CmdOption(o) for o in DodoTaskLoader.cmd_options])
+    ref = [r for r in REAL_COMMANDS if r.endswith(':' + label)][0]
+    modname, cls = ref.split(':')
+    klass = getattr(importlib.import_module(modname), cls)
+    try:
+        inst = klass(task_loader=DodoTaskLoader(), config={}, cmds=PluginDict())
+    except TypeError:
+        inst = klass(config={})
+    return CmdParse(inst.get_options())
+
+
+def impl_realcmd(case):
+    names = [o['name'] for o in case['spec']]
+    out = {}
+
+    def cv(v):
+        v = optlib.canon_val(v)
+        return None if isinstance(v, dict) else v
+
+    with optlib.environ(case['env']):
+        try:
+            parser = _real_parser(case['cmd'])
+        except Exception as ex:  # noqa
+            return {'res': optlib.exc_obs(ex), 'ctor': True}
+        out['defaults0'] = [cv(o.default) for o in parser.options]
+        for tag, dtag in (('res', 'defaults'), ('res2', 'defaults2')):
+            try:
+                params, pos = parser.parse(list(case['argv']))
+                obs = optlib.params_obs(names, params, pos)
+                obs['ok']['vals'] = [[n, None if isinstance(v, dict) else v] for n, v in obs['ok']['vals']]
+                out[tag] = obs
+            except Exception as ex:  # noqa
+                out[tag] = optlib.exc_obs(ex)
+            out[dtag] = [cv(o.default) for o in parser.options]
+    return out
+
+
+def realcmd_cases(rng, n_random):
+    """(a) every option of every real command addressed once through each of its names, with the value the user
+    means it to get (`target`/`expected`); (b) random assignment lists over the real tables"""
+    out = []
+    for label, spec, why in real_tables():
+        if spec is None:
+            continue
+        base = {'path': 'realcmd', 'cmd': label, 'spec': spec, 'env': [], 'ini': [], 'glob': [], 'dodo': [],
+                'sep': False, 'pos': [], 'malformed': None, 'n_base': 0, 'ini_mode': 'api'}
+        for o in spec:
+            if o['type'] == 'bool':
+                forms = ([(['flags', o['short']], True)] if o['short'] else []) + \
+                        ([(['lFlag', o['long']], True)] if o['long'] else []) + \
+                        ([(['lFlag', o['inverse']], False)] if o['long'] and o['inverse'] else [])
+            else:
+                text = str(o['choices'][0]) if o['choices'] else {'int': '2', 'str': 'val', 'list': 'val'}[o['type']]
+                val = {'int': (lambda t: int(t)), 'str': (lambda t: t),
+                       'list': (lambda t: list(o['default'] or []) + [t])}[o['type']](text)
+                forms = ([(['sAtt', '', o['short'], text], val), (['sDet', '', o['short'], text], val)] if o['short'] else []) + \
+                        ([(['lEq', o['long'], text], val), (['lDet', o['long'], text], val)] if o['long'] else [])
+            for asg, val in forms:
+                c = dict(base, asgs=[asg], target=o['name'], expected=val)
+                c['argv'] = optlib.render(c['asgs'], False, [])
+                out.append(c)
+        for _ in range(n_random):
+            c = dict(base, asgs=optlib.gen_asgs(rng, spec, good_p=0.95), pos=[rng.choice(optlib.POSITIONALS) for _ in range(rng.randint(0, 2))])
+            c['env'] = [e for e in optlib.gen_sources(rng, spec, good_p=0.95, p_env=0.5)[0]]
+            c['argv'] = optlib.render(c['asgs'], False, c['pos'])
+            out.append(c)
     return out
 
 
